@@ -260,7 +260,7 @@ class ResourcePeriodicallyUnavailable(ResourceConstraint):
                         )
                     ]
 
-                    if self.start > 0:
+                    if self.start >= 0:
                         conds.append(end_task_i <= self.start)
                     if self.end is not None:
                         conds.append(start_task_i >= self.end)
@@ -526,7 +526,7 @@ class ResourcePeriodicallyInterrupted(ResourceConstraint):
                 core = z3.And(*conds)
 
                 mask = [core]
-                if self.start > 0:
+                if self.start >= 0:
                     mask.append(end_task_i <= self.start)
                 if self.end is not None:
                     mask.append(start_task_i >= self.end)
